@@ -785,6 +785,8 @@ impl Ctx {
         let mut marks = String::new();
         let mut viol = 0usize;
         let mut prev_unused = true;
+        let mut done_all = true;
+        let mut atrace = String::new();
         while calls < 400000 {
             let it = sc.at(calls);
             let end = in_off.saturating_add(it[0] as usize).min(input.len());
@@ -814,6 +816,7 @@ impl Ctx {
             th = fnv_step(fnv_step(fnv_step(th, (last + 20000) as u64), ic as u64), oc as u64);
             if calls <= 40 {
                 trace.push_str(&format!("{}/{}/{}/{};", fl, last, ic, oc));
+                atrace.push_str(&format!("{}:{};", in_off, c.adler32()));
             }
             // flush points (C12): a sync/full/partial flush requested when no earlier output was pending
             // (the previous call left output space unused), which consumed everything offered and
@@ -824,6 +827,7 @@ impl Ctx {
             prev_unused = oc < ob.len();
             if last == 1 || last < 0 && !(stream && last == -5) {
                 why = "end";
+                done_all = ic == chunk.len();
                 break;
             }
             if ic == 0 && oc == 0 {
@@ -837,18 +841,20 @@ impl Ctx {
             }
         }
         format!(
-            "st={} in={} out={} calls={} why={} viol={} th={:016x} ad={} ub={} marks={} tr={} full={}",
+            "st={} in={} out={} calls={} why={} viol={} dn={} th={:016x} ad={} ub={} marks={} tr={} atr={} full={}",
             last,
             in_off,
             out.len(),
             calls,
             why,
             viol,
+            done_all as u8,
             th,
             c.adler32(),
             c.unwritten_bit_count(),
             if marks.is_empty() { "-".to_string() } else { marks },
             if trace.is_empty() { "-".to_string() } else { trace },
+            if atrace.is_empty() { "-".to_string() } else { atrace },
             hex(&out)
         )
     }
@@ -929,7 +935,9 @@ fn main() {
     let rd = std::io::BufReader::with_capacity(1 << 20, f);
     let stdout = std::io::stdout();
     let mut w = std::io::BufWriter::with_capacity(1 << 20, stdout.lock());
-    std::panic::set_hook(Box::new(|_| {}));
+    if std::env::var_os("MZH_SHOW_PANICS").is_none() {
+        std::panic::set_hook(Box::new(|_| {}));
+    }
     let mut ctx = Ctx::new();
     let mut case = String::from("?");
     let mut opn = 0usize;
